@@ -148,15 +148,12 @@ func (g *Gen) unify(a, b Val) (Val, Val) {
 		b = g.coerce(b, a.S, a.G)
 	}
 	// nil literal handling
-	if a.S != nil && b.S != nil && a.S.K != b.S.K {
-		if a.T == "$nil" {
-			a = g.nilOf(b)
-		} else if b.T == "$nil" {
-			b = g.nilOf(a)
-		}
-	}
 	if a.T == "$nil" && b.T == "$nil" {
 		a.T, b.T = "pnull", "pnull"
+	} else if a.T == "$nil" {
+		a = g.nilOf(b)
+	} else if b.T == "$nil" {
+		b = g.nilOf(a)
 	}
 	return a, b
 }
